@@ -944,3 +944,123 @@ def enumerate_small_scope(kind, depth, alphabet_hook=None, limit=200000):
 
     for x in rec([(E_START,)], False):
         yield x
+
+
+def check_histories(ck, monitor, tied, model="group", module="Model.GroupObs"):
+    """The part C16.py and C17.py share: corpus + generated (+ exhaustive) histories through the real classes, trace and observation
+    correspondence with the extracted model, the property's monitor on every implementation run, violations with shrunk inputs."""
+    import vlib
+    rnd = random.Random(ck.seed)
+    thorough = ck.tier == "thorough"
+    n_gen = 12000 if thorough else 700
+    histories = [(k, evs, "corpus") for k, evs in corpus_cases()]
+    for _ in range(n_gen):
+        kind, evs, _, _ = gen_history(rnd)
+        histories.append((kind, evs, "generated"))
+    if thorough:
+        for kind, depth in ((1, 8), (0, 8)):
+            for evs in enumerate_small_scope(kind, depth, limit=60000):
+                histories.append((kind, evs, "exhaustive-depth-%d" % depth))
+
+    def run_case(kind, evs):
+        line = encode_case(kind, evs)
+        tr, problems, steps = run_impl_steps(line)
+        return line, tr, problems, steps
+
+    def is_bad(kind, evs):
+        _, _, problems, steps = run_case(kind, evs)
+        return bool(monitor(kind, steps)[0]) or bool(problems)
+
+    cases, impl_tr, impl_obs, meta = [], [], [], []
+    totals = {}
+    nviol = 0
+    for kind, evs, origin in histories:
+        line, tr, problems, steps = run_case(kind, evs)
+        cases.append(line)
+        impl_tr.append(tr)
+        impl_obs.append(flatten_obs(steps))
+        meta.append((kind, evs, origin))
+        ck.hist("origin:" + origin)
+        ck.hist("kind:" + ("ConsumerGroup" if kind == 1 else "Coordinator"))
+        for ev in evs:
+            ck.hist("ev:" + EV_NAMES.get(ev[0], "?"))
+            if ev[0] in (E_LOOKUP, E_META, E_JOIN, E_PARTS, E_SYNC, E_HBREPLY, E_LEAVE) and ev[2] >= 100:
+                ck.hist("fail:" + KIND_NAMES[ev[2] - 100])
+        bad, facts = monitor(kind, steps)
+        for k, v in facts.items():
+            totals[k] = totals.get(k, 0) + v
+        bad = list(bad) + [(-1, "outside the event/observable alphabet: " + p) for p in problems]
+        if bad:
+            nviol += 1
+            if nviol <= 3:
+                small = shrink_events(kind, evs, is_bad)
+                l2, t2, p2, s2 = run_case(kind, small)
+                ck.violation({"kind": "monitor", "failures": (monitor(kind, s2)[0] + p2) or bad, "case_kind": kind, "events": small,
+                              "impl_trace": pretty_trace(kind, small, t2), "case_line": l2, "origin": origin, "replay_op": "history"})
+            else:
+                ck.violation({"kind": "monitor", "failures": bad[:3], "case_kind": kind, "events": evs, "case_line": line, "replay_op": "history"})
+
+    describe = lambda c: {"kind": c[0], "line": c[:60]}
+    nontrivial = lambda c, o: sum(1 for x in o if x == -1) >= 4 and any(x in (8, 13) for x in o)
+    diffs, mo = ck.correspond(model, module, cases, impl_tr, "output trace of the real Coordinator/ConsumerGroup vs Model.Group.run (every event of every history)",
+                              nontrivial=nontrivial, describe=describe)
+    mobs = ck.model(model, [[2 + c[0]] + c[1:] for c in cases])
+    odiffs = [i for i, (a, b) in enumerate(zip(impl_obs, mobs)) if list(a) != observable_part(b)]
+    st = ck.cov["correspondence"].setdefault("per-step observation vector (pending requests by kind, armed calls, heartbeat looper, live / shutting-down consumers, "
+                                             "generation_id, member_id) vs Model.GroupObs.obs", {"cases": 0, "differences": 0, "in_coq_sample": 0})
+    st["cases"] += len(cases)
+    st["differences"] += len(odiffs)
+    ck.cov["evaluations"] += len(cases)
+    chk = ck.model(model, [[4 + c[0]] + c[1:] for c in cases])
+    nfalse = sum(1 for v in chk for b in v if b != 1)
+    ck.cov["invariant_bits_false_on_model_runs"] = nfalse
+    if nfalse:
+        raise vlib.CheckAbort("Model.GroupObs.chk is false on a model run: the boolean mirror of the proved invariant is wrong")
+    for i in sorted(set(diffs + odiffs))[:3]:
+        if ck.violations:
+            break
+        kind, evs, origin = meta[i]
+        found = None
+        for j in range(1, len(evs) + 1):      # a difference alone is not a violation: look for a failing input inside it
+            if is_bad(kind, evs[:j]):
+                found = evs[:j]
+                break
+        if found:
+            l2, t2, p2, s2 = run_case(kind, found)
+            ck.violation({"kind": "monitor (found from a correspondence difference)", "failures": monitor(kind, s2)[0] + p2, "case_kind": kind,
+                          "events": found, "impl_trace": pretty_trace(kind, found, t2), "replay_op": "history"})
+        else:
+            ck.violation({"kind": "correspondence broken", "correspondence": "corr:group:" + ("trace" if i in diffs else "observations"),
+                          "theorems_no_longer_tied": tied, "case_kind": kind, "events": evs,
+                          "impl_trace": pretty_trace(kind, evs, impl_tr[i]), "model_trace": pretty_trace(kind, evs, mo[i]),
+                          "impl_obs": impl_obs[i], "model_obs": observable_part(mobs[i]), "replay_op": "history"}, no_input=True)
+    # documented delays: the float handed to callLater, bit for bit, with default and non-default constructor arguments
+    for delays, dflt in ((None, True), ({"initial_backoff_ms": 700, "retry_backoff_ms": 33, "fatal_backoff_ms": 12345.5, "heartbeat_interval_ms": 2500}, False)):
+        for kind, evs in corpus_cases()[:10]:
+            tr2, probs = run_impl(encode_case(kind, evs), delays=delays, use_defaults=dflt)
+            for p in probs:
+                ck.violation({"kind": "delay", "what": p, "delays": delays or "defaults", "case_kind": kind, "events": evs, "replay_op": "history"})
+    ck.cov["monitor_totals"] = totals
+    ck.cov["rule"] = ("histories = hand-written corpus (one per theorem / repaired defect / residual finding) + state-aware seeded generator "
+                      "(random.Random(VERIF_SEED): replies and failures of every class for every pending request, timers and heartbeat ticks in any order, "
+                      "stop()/start() at random points, consumer failures and slow/failed shutdowns, 10% late/duplicate/foreign events)"
+                      + (" + every maximal sequence of implementation-enabled events up to depth 8 over a reduced alphabet" if thorough else "")
+                      + ". A history is non-trivial if it has >= 4 events and schedules a call or fires the start Deferred; distinct = distinct case lines.")
+    ck.cov["trusted_base"] += ["correspondence harness harness/props/group_lib.py + vlib.py", "extracted OCaml runner (ExtrOcamlBasic) cross-checked by vm_compute sample"]
+    return run_case
+
+
+def replay_history(rp, monitor):
+    kind = rp["case_kind"]
+    evs = []
+    for e in rp["events"]:
+        e = list(e)
+        if e and e[0] == E_SYNC:
+            e[3] = [tuple(x) for x in e[3]]
+        evs.append(tuple(e))
+    line = encode_case(kind, evs)
+    tr, problems, steps = run_impl_steps(line)
+    print(pretty_trace(kind, evs, tr))
+    bad, facts = monitor(kind, steps)
+    print("monitor:", bad or "no failure", "| problems:", problems or "none")
+    return 1 if (bad or problems) else 0
